@@ -5,3 +5,4 @@ import Preflate.Props.C03
 #print axioms Preflate.code_order_is_rfc
 #print axioms Preflate.parse_eq_spec
 #print axioms Preflate.parse_agrees_spec
+#print axioms Preflate.decodeSymTree_eq
